@@ -41,6 +41,35 @@ __CPROVER_requires(__CPROVER_same_object(self, g_midiChannels_storage))
 __CPROVER_assigns(*self)
 __CPROVER_ensures(self->expression == 127 && self->volume == __CPROVER_old(self->volume) && self->brightness == __CPROVER_old(self->brightness) && self->patch == __CPROVER_old(self->patch));
 
+/* MIDIchannel::find_activenote (intrusive list lookup): ASSUMED - returns "not found" (NULL here) or one cell of the
+ * environment; rule R7 rewrites the iterator to a cell pointer and is_end() to a NULL test */
+extern pl_cell_NoteInfo g_note_cell;
+pl_cell_NoteInfo *MIDIchannel_find_activenote(MIDIchannel *self, unsigned note)
+__CPROVER_requires(__CPROVER_same_object(self, g_midiChannels_storage))
+__CPROVER_assigns()
+__CPROVER_ensures(__CPROVER_return_value == NULL || __CPROVER_return_value == &g_note_cell);
+/* CBMC checks an index into a member array reached through a pointer only against the WHOLE object (here the channel
+ * table), so noteAftertouch[note] with note >= 128 would pass its bounds check while overwriting sibling fields.  The
+ * contract therefore states the frame at field level: apart from noteAftertouch[] and noteAfterTouchInUse every field
+ * of every channel keeps its value (ghost copy g_table_before, typed equality generated from the extracted struct). */
+extern MIDIchannel g_table_before[ENV_N_MIDI_CHANNELS];
+static bool spec_table_same_but_aftertouch(void)
+{
+    bool ok = true;
+    for(size_t k = 0; k < ENV_N_MIDI_CHANNELS; k++)
+    {
+        MIDIchannel t = g_table_before[k];
+        for(size_t q = 0; q < 128; q++) t.noteAftertouch[q] = g_midiChannels_storage[k].noteAftertouch[q];
+        t.noteAfterTouchInUse = g_midiChannels_storage[k].noteAfterTouchInUse;
+        ok = ok && spec_MIDIchannel_eq(&g_midiChannels_storage[k], &t);
+    }
+    return ok;
+}
+void realTime_NoteAfterTouch(uint8_t channel, uint8_t note, uint8_t atVal) RT_REQUIRES
+__CPROVER_requires(spec_table_same_but_aftertouch())
+__CPROVER_assigns(g_midiChannels_storage, g_update_calls, g_other_calls, g_note_cell) RT_ENSURES
+__CPROVER_ensures(spec_table_same_but_aftertouch());
+
 void realTime_Controller(uint8_t channel, uint8_t type, uint8_t value) RT_REQUIRES RT_FRAME RT_ENSURES;
 void realTime_PatchChange(uint8_t channel, uint8_t patch) RT_REQUIRES RT_FRAME RT_ENSURES;
 void realTime_PitchBend(uint8_t channel, uint16_t pitch) RT_REQUIRES RT_FRAME RT_ENSURES;
